@@ -1,10 +1,117 @@
-/- driver handler for component Render: requests whose first token belongs to it -/
+/- driver handler for component Render (C19): requests whose first token is `render` or `textread`
+
+   render <p|s> <dialect> <drop_parens 0|1> <identity_infix 0|1> <max_infix> ## <tree>
+     the string table is ('text', notation, dialect) of Ptx.Gen.Symbols; the marks are Ptx.Gen.RenderMarks.textMarks
+     tree ::= T <depth> <closed 0|1> <#nodes> <node>* <#children> <tree>*
+     node ::= N <sentence | _> <world|_> <+|-|_> <world1|_> <world2|_> <ellipsis 0|1> <ticked 0|1> <c|q|_>
+              (sentence in the encoding of Ptx/Wire.lean; c = closure flag, q = any other flag)
+     -> `ok <WF 0|1> <text>`     text = code points joined by `,` (`-` for the empty string)
+        `err:wire` | `err:table`
+
+   textread <text>
+     the independent reader of Ptx/Tab/RenderRead.lean on a text (code points as above)
+     -> `ok <clean 0|1> <closure marks per branch, joined by ,> <branches>`   | `none`
+        branches: joined by `|`; node strings of a branch joined by `/`; a node string = code points joined by `,`
+-/
 import Ptx.Wire
+import Ptx.Tab.RenderRead
+import Ptx.Gen.RenderMarks
 namespace Ptx.Drv.Render
+open Ptx Ptx.Wire Ptx.Render
+
+def optNat (t : String) : Option (Option Nat) :=
+  if t == "_" then some none else t.toNat?.map some
+
+def bit (t : String) : Option Bool :=
+  if t == "1" then some true else if t == "0" then some false else none
+
+def parseNode : Toks → Option (RNode × Toks)
+  | "N" :: r => do
+    let (s, r) ← (match r with
+      | "_" :: r' => some (none, r')
+      | _ => (parseSent r).map fun (s, r') => (some s, r'))
+    match r with
+    | w :: d :: w1 :: w2 :: e :: tk :: fl :: r =>
+      let d? : Option (Option Bool) := match d with
+        | "+" => some (some true) | "-" => some (some false) | "_" => some none | _ => none
+      let fl? : Option (Option Flag) := match fl with
+        | "c" => some (some .closure) | "q" => some (some .quit) | "_" => some none | _ => none
+      some ({ sentence := s, world := ← optNat w, designated := ← d?, world1 := ← optNat w1, world2 := ← optNat w2,
+              ellipsis := ← bit e, ticked := ← bit tk, flag := ← fl? }, r)
+    | _ => none
+  | _ => none
+
+def parseNodes : Nat → Toks → Option (List RNode × Toks)
+  | 0, r => some ([], r)
+  | n + 1, r => do
+    let (x, r) ← parseNode r
+    let (xs, r) ← parseNodes n r
+    some (x :: xs, r)
+
+mutual
+def parseTreeF : Nat → Toks → Option (RTree × Toks)
+  | 0, _ => none
+  | f + 1, ts =>
+    match ts with
+    | "T" :: d :: cl :: n :: r => do
+      let (ns, r) ← parseNodes (← n.toNat?) r
+      match r with
+      | k :: r => do
+        let (cs, r) ← parseTreesF f (← k.toNat?) r
+        some (.mk (← d.toNat?) ns cs (← bit cl), r)
+      | [] => none
+    | _ => none
+def parseTreesF : Nat → Nat → Toks → Option (List RTree × Toks)
+  | 0, _, _ => none
+  | _ + 1, 0, r => some ([], r)
+  | f + 1, k + 1, r => do
+    let (c, r) ← parseTreeF f r
+    let (cs, r) ← parseTreesF f k r
+    some (c :: cs, r)
+end
+
+def showChars (cs : List Nat) : String :=
+  if cs.isEmpty then "-" else ",".intercalate (cs.map toString)
+
+def parseChars (t : String) : Option (List Nat) :=
+  if t == "-" then some [] else (t.splitOn ",").mapM (·.toNat?)
+
+def b01 (b : Bool) : String := if b then "1" else "0"
+
+def findTable (notn dialect : String) : Option Sym.StringTable :=
+  Gen.Symbols.stringTables.find? fun t => t.format == "text" && t.notn == notn && t.dialect == dialect
 
 /-- `none` = not my request -/
 def handle (ts : List String) : Option String :=
   match ts with
+  | "render" :: r =>
+    match splitAt "##" r with
+    | [[nt, dia, dp, ii, mi], tree] =>
+      some <| match (do
+          let notn : Notn ← (match nt with
+            | "p" => some Notn.polish
+            | "s" => do some (Notn.standard ⟨← bit dp, ← bit ii, ← mi.toNat?⟩)
+            | _ => none)
+          let (t, rest) ← parseTreeF (tree.length + 1) tree
+          if !rest.isEmpty then none else
+          some (notn, t)) with
+        | none => "err:wire"
+        | some (notn, t) =>
+          match findTable (if nt == "p" then "polish" else "standard") dia with
+          | none => "err:table"
+          | some tb => s!"ok {b01 t.WF} {showChars (renderText Gen.RenderMarks.textMarks tb notn t)}"
+    | _ => some "err:wire"
+  | ["textread", txt] =>
+    some <| match parseChars txt with
+      | none => "err:wire"
+      | some cs =>
+        match readText Gen.RenderMarks.textMarks cs with
+        | none => "none"
+        | some r =>
+          let m := Gen.RenderMarks.textMarks
+          let marks := ",".intercalate ((r.branchClosureMarks m).map toString)
+          let brs := "|".intercalate (r.branchNodeStrings.map fun b => "/".intercalate (b.map showChars))
+          s!"ok {b01 (r.restsClean m)} {marks} {brs}"
   | _ => none
 
 end Ptx.Drv.Render
